@@ -7,7 +7,8 @@
 From Coq Require Import List ZArith Bool.
 Import ListNotations.
 Require Import DV.Common.Base DV.Core.Diagram DV.Core.WF DV.Core.DiagramLemmas
-  DV.Core.Rewriting DV.Core.RewritingLemmas DV.Core.Prog DV.Core.ProgLemmas.
+  DV.Core.Rewriting DV.Core.RewritingLemmas DV.Core.Foliate DV.Core.FoliateLemmas
+  DV.Core.Prog DV.Core.ProgLemmas DV.Sem.Monoidal DV.Sem.FoliateSem.
 Open Scope Z_scope.
 
 (* every value returned by any sequence of API calls -- composition, tensor,
@@ -43,3 +44,65 @@ Theorem interchange_result_well_typed : forall d i j left d', wf d ->
   interchange d i j left = Ok d' -> wf d' /\ ddom d' = ddom d /\ dcod d' = dcod d.
 Proof. exact interchange_wf. Qed.
 Print Assumptions interchange_result_well_typed.
+
+(* ---- foliation (rewriting.foliate / foliation / flatten / depth) ---- *)
+
+(* every diagram yielded by d.foliate() is well-typed with d's domain, codomain and number
+   of boxes, and every slice is well-typed *)
+Theorem foliate_steps_and_slices_well_typed : forall d steps slices, wf d ->
+  foliate d = Ok (steps, slices) ->
+  Forall (fun x => wf x /\ ddom x = ddom d /\ dcod x = dcod d /\
+                   length (dboxes x) = length (dboxes d)) steps
+  /\ Forall wf slices.
+Proof. exact foliate_wf. Qed.
+Print Assumptions foliate_steps_and_slices_well_typed.
+
+(* d.foliation() = Diagram(dom, cod, slices, [0, ..., 0]) is itself well-typed: the slices
+   compose from dom to cod *)
+Theorem foliation_is_well_typed : forall d steps slices, wf d ->
+  foliate d = Ok (steps, slices) -> slices_chain (ddom d) slices (dcod d).
+Proof. exact foliation_well_typed. Qed.
+Print Assumptions foliation_is_well_typed.
+
+(* flattening the foliation gives the last yielded diagram back: layers, boxes and offsets *)
+Theorem foliation_flatten_is_last_step : forall d steps slices, wf d ->
+  foliate d = Ok (steps, slices) ->
+  concat (map (fun s => la_ls (dlayers s)) slices) = la_ls (dlayers (last_step d steps)) /\
+  concat (map dboxes slices) = dboxes (last_step d steps) /\
+  concat (map doffs slices) = doffs (last_step d steps).
+Proof. exact foliation_flatten. Qed.
+Print Assumptions foliation_flatten_is_last_step.
+
+(* every slice is one non-empty layer of boxes sitting side by side, left to right *)
+Theorem foliation_slices_are_layers : forall d steps slices, wf d ->
+  foliate d = Ok (steps, slices) ->
+  Forall (fun s => dboxes s <> []) slices /\
+  Forall (fun s => forall j b0 o0 o1, nth_error (dboxes s) j = Some b0 ->
+                   nth_error (doffs s) j = Some o0 -> nth_error (doffs s) (S j) = Some o1 ->
+                   o0 + len (bcod b0) <= o1) slices.
+Proof.
+  intros d steps slices W H. split;
+    [exact (foliation_slices_nonempty d steps slices W H)
+    |exact (foliation_slices_parallel d steps slices W H)].
+Qed.
+Print Assumptions foliation_slices_are_layers.
+
+(* on a well-typed diagram foliate never fails: the recursion bound is never reached, no index
+   is out of range and every InterchangerError is caught; depth is between 0 and the number of
+   boxes and is 0 exactly for diagrams without boxes *)
+Theorem foliate_never_fails : forall d, wf d -> exists r, foliate d = Ok r.
+Proof. exact foliate_total. Qed.
+Print Assumptions foliate_never_fails.
+
+Theorem depth_is_bounded : forall d n, wf d -> depth d = Ok n ->
+  0 <= n <= len (dboxes d) /\ (n = 0 <-> dboxes d = []).
+Proof. exact depth_bounds. Qed.
+Print Assumptions depth_is_bounded.
+
+(* foliation does not change what the diagram denotes, in any strict monoidal category *)
+Theorem foliate_preserves_denotation :
+  forall (Mod : monoidal_model) (F : box -> M Mod) d steps slices,
+  wf d -> respects_types Mod F -> foliate d = Ok (steps, slices) ->
+  Forall (fun x => interp Mod F x = interp Mod F d) steps.
+Proof. exact foliate_interp. Qed.
+Print Assumptions foliate_preserves_denotation.
